@@ -9,6 +9,7 @@
     text          percent-encoded (space, newline, '%', ',', ';', '|', '~', '+', ':')
 -/
 import GraphiqModel.Model.Export
+import GraphiqModel.Model.Compare
 import Driver.Proto
 namespace Graphiq.CmdExport
 open Graphiq Graphiq.Proto Graphiq.Export
@@ -198,6 +199,75 @@ def cmdWrapInfo (a : Args) : String :=
     | .error e => s!"err {e}"
     | .ok i => s!"ok name={pctEnc i.gateName} defs={String.intercalate "|" (i.defs.map fun d => pctEnc d.text)} multi={b01 i.multi}"
 
+/-! ### C15: comparison -/
+
+open Graphiq.Compare in
+def showWire (w : Wire) : String := s!"{w.t.ch}{w.i}"
+
+open Graphiq.Compare in
+def showNd : Nd → String
+  | .inp w => s!"{showWire w}_in"
+  | .out w => s!"{showWire w}_out"
+  | .op id => toString id
+
+open Graphiq.Compare in
+def showNOp : NOp → String
+  | .input w => s!"Input:{showWire w}"
+  | .output w => s!"Output:{showWire w}"
+  | .gate o => showOp o
+
+open Graphiq.Compare in
+def showMG (g : MG) : String :=
+  let ns := String.intercalate ";" (g.nodes.map fun p => s!"{showNd p.1}={showNOp p.2}")
+  let es := String.intercalate ";" (g.edges.map fun e =>
+    s!"{showNd e.src}>{showNd e.dst}>{showWire e.key}>{match e.ct with | some c => String.singleton c | none => "-"}")
+  s!"regs={g.ne}.{g.np}.{g.nc} nodes={if ns = "" then "-" else ns} edges={if es = "" then "-" else es}"
+
+/-- `ne.np.nc/op,op,…` -/
+def circOfStr (s : String) : Option Circuit :=
+  match splitChar '/' s with
+  | [regs, ops] =>
+    match natsOf '.' regs, opsOf ops with
+    | [ne, np, nc], some l => some { ne := ne, np := np, nc := nc, ops := l }
+    | _, _ => none
+  | _ => none
+
+def showEB : Except Err Bool → String
+  | .ok b => b01 b
+  | .error e => s!"err:{e}"
+
+open Graphiq.Compare in
+def cmdGraph (a : Args) : String :=
+  match circOfStr (get a "c") with
+  | none => "err parse"
+  | some c =>
+    match MG.build c with
+    | .error e => s!"err {e}"
+    | .ok g =>
+      let g := if get a "norm" = "1" then g.normalise else g
+      let g := if get a "ct" = "1" then g.addControlTarget else g
+      s!"ok {showMG g}"
+
+open Graphiq.Compare in
+def cmdCmp (a : Args) : String :=
+  match circOfStr (get a "a"), circOfStr (get a "b") with
+  | some c1, some c2 =>
+    s!"ok direct={showEB (direct c1 c2)} iso={showEB (circuitIsIsomorphic c1 c2)} isonorm={showEB (isoNormalised c1 c2)} reneq={b01 (renEq c1 c2)} wireseq={b01 (wiresEq c1 c2)}"
+  | _, _ => "err parse"
+
+open Graphiq.Compare in
+def cmdFilter (a : Args) : String :=
+  match (splitChar '|' (get a "cs")).mapM circOfStr with
+  | none => "err parse"
+  | some cs =>
+    let idx := cs.zipIdx
+    let isoEq := fun (x y : Circuit × Nat) => match isoNormalised x.1 y.1 with | .ok r => r | .error _ => false
+    let dirEq := fun (x y : Circuit × Nat) => match checkRedundant x.1 y.1 with | .ok r => r | .error _ => false
+    let kept := removeRedundantWith isoEq idx
+    let st := storageAddAll dirEq false idx
+    let st2 := storageAddAll isoEq false idx
+    s!"ok kept={showNats "." (kept.map (·.2))} stdirect={String.ofList (st.2.map fun b => if b then '1' else '0')} stiso={String.ofList (st2.2.map fun b => if b then '1' else '0')}"
+
 def dispatch (cmd : String) (a : Args) : Option String :=
   match cmd with
   | "c14.all" => some (cmdAll a)
@@ -205,6 +275,9 @@ def dispatch (cmd : String) (a : Args) : Option String :=
   | "c14.jsonparse" => some (cmdJsonParse a)
   | "c14.name" => some (cmdName a)
   | "c14.wrapinfo" => some (cmdWrapInfo a)
+  | "c15.graph" => some (cmdGraph a)
+  | "c15.cmp" => some (cmdCmp a)
+  | "c15.filter" => some (cmdFilter a)
   | _ => none
 
 end Graphiq.CmdExport
